@@ -140,40 +140,54 @@ def audit(module, ns, more=()):
 FORBIDDEN = re.compile(r'\bsorry\b|\badmit\b|^\s*axiom\s|native_decide|bv_decide|implemented_by|\bunsafe\s|maxHeartbeats\s+0')
 
 
-def grep_forbidden(allow_native_in=()):
-    hits = []
-    root = os.path.join(LEAN, 'GeodeVerif')
-    for d, _, fs in os.walk(root):
-        if any(x in d for x in ('GenF', 'GenR', 'GenQ')):
+def import_closure(modules):
+    """the non-generated GeodeVerif source files a set of modules depends on (transitively)"""
+    seen, todo = set(), list(modules)
+    files = []
+    while todo:
+        m = todo.pop()
+        if m in seen or not m.startswith('GeodeVerif.'):
             continue
-        for f in fs:
-            if not f.endswith('.lean'):
-                continue
-            p = os.path.join(d, f)
-            incomment = False
-            for i, line in enumerate(open(p).read().split('\n'), 1):
-                s = line
-                # strip block comments (single-line approximation + state)
-                if incomment:
-                    if '-/' in s:
-                        s = s.split('-/', 1)[1]
-                        incomment = False
-                    else:
-                        continue
-                while '/-' in s:
-                    a, b = s.split('/-', 1)
-                    if '-/' in b:
-                        s = a + b.split('-/', 1)[1]
-                    else:
-                        s = a
-                        incomment = True
-                        break
-                s = s.split('--', 1)[0]
-                m = FORBIDDEN.search(s)
-                if m:
-                    if 'native_decide' in m.group(0) and any(x in p for x in allow_native_in):
-                        continue
-                    hits.append(f'{os.path.relpath(p, LEAN)}:{i}: {line.strip()[:120]}')
+        seen.add(m)
+        path = os.path.join(LEAN, m.replace('.', '/') + '.lean')
+        if not os.path.exists(path):
+            continue
+        if not any(g in m for g in ('.GenF.', '.GenR.', '.GenQ.')):
+            files.append(path)
+        for line in open(path).read().split('\n'):
+            mm = re.match(r'\s*import\s+(GeodeVerif\.[\w.]+)', line)
+            if mm:
+                todo.append(mm.group(1))
+    return files
+
+
+def grep_forbidden(modules, allow_native_in=()):
+    """forbidden tokens (outside comments) in the hand-written Lean sources the property's theorems depend on"""
+    hits = []
+    for p in import_closure(modules):
+        incomment = False
+        for i, line in enumerate(open(p).read().split('\n'), 1):
+            s = line
+            if incomment:
+                if '-/' in s:
+                    s = s.split('-/', 1)[1]
+                    incomment = False
+                else:
+                    continue
+            while '/-' in s:
+                a, b = s.split('/-', 1)
+                if '-/' in b:
+                    s = a + b.split('-/', 1)[1]
+                else:
+                    s = a
+                    incomment = True
+                    break
+            s = s.split('--', 1)[0]
+            m = FORBIDDEN.search(s)
+            if m:
+                if 'native_decide' in m.group(0) and any(x in p for x in allow_native_in):
+                    continue
+                hits.append(f'{os.path.relpath(p, LEAN)}:{i}: {line.strip()[:120]}')
     return hits
 
 
@@ -260,7 +274,8 @@ def check_property(pid, tier_):
                 extra = set(ax) - STD_AXIOMS
                 if extra and not (extra <= NATIVE_AXIOMS and n in native_ok):
                     broken.append({'kind': 'axioms', 'what': f'{n} depends on {sorted(extra)}'})
-            hits = grep_forbidden(allow_native_in=P.get('native_files', ()))
+            hits = grep_forbidden([module] + list(P.get('more_proof_modules', ())) + list(P.get('extra_modules', [])),
+                                  allow_native_in=P.get('native_files', ()))
             for h in hits:
                 broken.append({'kind': 'forbidden-token', 'what': h})
             required = P.get('required_theorems', [])
